@@ -469,7 +469,13 @@ Definition feat_val (f : feat) : val :=
 
 Definition dialect_of_N (n : N) : dialect := match n with 0%N => Blast | 1%N => Mmseqs | _ => Infernal end.
 
-(* harness entry point: [domain flag; result] *)
+(* the optional comments=[] argument collects every line starting with '#', core.py:272-273 (observable after a
+   successful read, when all lines have been visited) *)
+Definition comment_lines (ls : list str) : list str := filter (starts_with (bs "#"%bs)) ls.
+Definition content_lines (univ : bool) (content : str) : list str :=
+  lines_keep (if univ then univ_nl content else content).
+
+(* harness entry point: [domain flag; result; comment lines] *)
 Definition run_C11 (dn : N) (sep : option byte) (outfmt : option str) (ftype : option str) (univ : bool)
            (content : str) : val :=
   let d := dialect_of_N dn in
@@ -477,7 +483,8 @@ Definition run_C11 (dn : N) (sep : option byte) (outfmt : option str) (ftype : o
       match snd (read_content d sep outfmt ftype univ content) with
       | Err e => VE e
       | Ok fts => VL (map feat_val fts)
-      end].
+      end;
+      VL (map VS (comment_lines (content_lines univ content)))].
 
 (* ------------------------------------------------------------------ specification side *)
 
@@ -565,6 +572,85 @@ Fixpoint rows_features (d : dialect) (ftype : option str) (hs : list hdr) (rows 
                | Ok f => match rows_features d ftype hs rs with Ok fs => Ok (f :: fs) | Err e => Err e end
                end
   end.
+
+(* ---- text level: whole files of the eight renderings ---- *)
+Definition unlines (ls : list str) : str := concat (map (fun l => l ++ [x0a]) ls).
+Definition blank (l : str) : bool := match strip_ws l with [] => true | _ => false end.
+(* a comment / blank line that none of the header-discovery branches (core.py:274-282) picks up;
+   [hnone] = no headers known yet (only matters for the Infernal ruler test) *)
+Definition skip_ok (d : dialect) (outfmt_none hnone : bool) (line : str) : bool :=
+  (starts_with (bs "#"%bs) line || blank line) &&
+  negb (match d with Blast => outfmt_none && starts_with (bs "# Fields:"%bs) line | _ => false end) &&
+  negb (match d with Infernal => hnone && contains (bs "--"%bs) line | _ => false end).
+(* the same for a line given without its terminator *)
+Definition skip_line (d : dialect) (outfmt_none hnone : bool) (l : str) : bool :=
+  negb (has x0a l) && skip_ok d outfmt_none hnone (l ++ [x0a]).
+(* BLAST outfmt 7: "# Fields: long1, long2, ..." *)
+Definition fields_line (hs : list hdr) : str :=
+  bs "# Fields:"%bs ++ join ","%byte (map (fun h => " "%byte :: hlong h) hs).
+Definition long_ok (l : str) : bool := negb (has ","%byte l) && negb (has x0a l) && edge_ok l.
+(* MMseqs2 fmtmode 4: the column names joined by the separator *)
+Definition names_line (c : byte) (hs : list hdr) : str := join c (map hname hs).
+(* Infernal tblout: a row is tokens separated by runs of blanks; only the last token (description) may contain blanks *)
+Definition all_space (s : str) : bool := forallb is_space s.
+Definition simple_tok (t : str) : bool := match t with [] => false | _ => forallb (fun c => negb (is_space c)) t end.
+Definition spacer (s : str) : bool := match s with [] => false | _ => forallb (fun c => is_space c && negb (byte_eqb c x0a)) s end.
+Definition render_ws (cells : list (str * str)) (last : str) : str :=
+  concat (map (fun p => fst p ++ snd p) cells) ++ last.
+Record wsrow := mkWsrow { w_lead : str; w_cells : list (str * str); w_last : str; w_trail : str }.
+Definition wsrow_toks (r : wsrow) : list str := map fst (w_cells r) ++ [w_last r].
+Definition wsrow_line (r : wsrow) : str := w_lead r ++ render_ws (w_cells r) (w_last r) ++ w_trail r.
+Definition wsrow_ok (n : nat) (r : wsrow) : bool :=
+  Nat.eqb (S (length (w_cells r))) n &&
+  forallb (fun p => simple_tok (fst p) && spacer (snd p)) (w_cells r) &&
+  edge_ok (w_last r) && negb (has x0a (w_last r)) &&
+  forallb (fun c => is_space c && negb (byte_eqb c x0a)) (w_lead r) &&
+  forallb (fun c => is_space c && negb (byte_eqb c x0a)) (w_trail r) &&
+  negb (starts_with (bs "#"%bs) (wsrow_line r)).
+(* the ruler line "#---- --- ..." announcing n columns *)
+Definition ruler_ok (n : nat) (l : str) : bool :=
+  contains (bs "--"%bs) l && negb (has x0a l) && Nat.eqb (length (split_ws (lstrip_ch "#"%byte (l ++ [x0a])))) n.
+(* headers of Infernal tblout with n columns: the version the column-count map names, core.py:279-282 *)
+Definition infernal_headers (n : nat) : res (list hdr) :=
+  match zassoc (Z.of_nat n) INFERNAL_NCOLS with
+  | None => Err eKey
+  | Some v => match assoc (dialect_name Infernal ++ "_"%byte :: v) DEFAULT_OUTFMT with
+              | None => Err eKey
+              | Some names => headers_from false Infernal names
+              end
+  end.
+
+(* a token row that carries the abstract hit h under the header list hs (hypotheses of C11_hit_row_spec) *)
+Definition row_carries (d : dialect) (hs : list hdr) (toks : list str) (h : hit) : Prop :=
+  length toks = length hs /\ carries d (row_attrs hs toks) h /\
+  sstrand_agrees h (assoc (bs "sstrand"%bs) (row_attrs hs toks)) = true /\ ident_ok (row_attrs hs toks) = true.
+(* the header row of MMseqs2 fmtmode 4 is recognised as such (core.py:285-287) and can be written with separator c *)
+Definition names_ok (c : byte) (hs : list hdr) : bool :=
+  forallb (fun t => negb (has c t) && negb (has x0a t)) (map hname hs) && negb (has x0a [c]) &&
+  edge_ok (names_line c hs) && negb (starts_with (bs "#"%bs) (names_line c hs)) &&
+  Nat.ltb 1 (length hs) && subset (map hname hs) MMSEQS_HEADER_NAMES.
+
+(* ---- rendering an abstract hit with the default column lists ---- *)
+Definition default_hs (key : str) (d : dialect) : list hdr :=
+  match assoc key DEFAULT_OUTFMT with
+  | Some names => match headers_from false d names with Ok hs => hs | Err _ => [] end
+  | None => []
+  end.
+(* BLAST outfmt 6/7/10 default columns; pident, length, mismatch, gapopen are free tokens *)
+Definition blast_row (x : str * str * str * str) (h : hit) : list str :=
+  let '(pid, len, mis, gap) := x in
+  [h_qseqid h; h_sseqid h; pid; len; mis; gap; dec_of_Z (h_qstart h); dec_of_Z (h_qend h);
+   dec_of_Z (h_sstart h); dec_of_Z (h_send h); h_evalue h; h_bitscore h].
+(* MMseqs2 fmtmode 0/4 default columns; fident, alnlen, mismatch, gapopen are free tokens *)
+Definition mmseqs_row (x : str * str * str * str) (h : hit) : list str := blast_row x h.
+(* Infernal fmt 1: the strand column says what the directions imply; the other eight columns are free tokens *)
+Definition strand_sign (h : hit) : str :=
+  if sgn (h_send h - h_sstart h) * sgn (h_qend h - h_qstart h) <? 0 then bs "-"%bs else bs "+"%bs.
+Definition infernal1_toks (x : str * str * str * str * str * str * str * str * str) (h : hit) : list str :=
+  let '(acc1, acc2, mdl, trunc, pass, gc, bias, inc, desc) := x in
+  [h_sseqid h; acc1; h_qseqid h; acc2; mdl; dec_of_Z (h_qstart h); dec_of_Z (h_qend h); dec_of_Z (h_sstart h);
+   dec_of_Z (h_send h); strand_sign h; trunc; pass; gc; bias; h_bitscore h; h_evalue h; inc; desc].
+Definition has_direction (h : hit) : bool := negb (h_sstart h =? h_send h) && negb (h_qstart h =? h_qend h).
 
 (* ---- finite checks over the regenerated tables ---- *)
 Definition type_of_col (d : dialect) (col : str) : option coltype :=
